@@ -61,7 +61,7 @@ ROWS = {
     ("depth_estimator::HashTableDepthEstimatorLibdeflate::internal_update_hash3", "debug_assert!"): ("invariant", None, "same"),
     ("depth_estimator::HashTableDepthEstimatorImpl::<H>::get_node_depth", "debug_assert_eq!"): ("invariant", None, "equal bytes => equal hash => same chain"),
     ("<depth_estimator::HashTableDepthEstimatorImpl<H> as depth_estimator::HashTableDepthEstimator>::match_depth", "debug_assert!"): ("invariant", None, "the reference lies inside the produced plaintext (dist <= produced bytes is validated by the reader)"),
-    ("hash_chain::InternalPosition::from_absolute", "Result::unwrap"): ("invariant", None, "reshift at 0xfe08 keeps pos - total_shift below 2^16"),
+    ("hash_chain::InternalPosition::from_absolute", "Result::unwrap"): ("guarded", "reshift-bound", "the re-base limit plus the largest update batch plus the lazy probe stays below 2^16 (positions advance only through update_hash)"),
     ("bit_writer::BitWriter::write", "assert!"): ("invariant", None, "codes are written with their own lengths; constant pairs are checked by C07/W2"),
     ("token_predictor::TokenPredictor::<'a>::predict_block", "Result::unwrap"): ("invariant", None, "u32::try_from(tokens.len()): needs >= 2^32 tokens in one block"),
     # ---- genuine ------------------------------------------------------------------------------------
